@@ -169,6 +169,19 @@ def explore_state(acc, pendulum, z, inst, inter, deep=True, kinds=True):
                 srcs.append(("pytz", _pytz(z), z))
             if _dateutil(z) is not None:
                 srcs.append(("dateutil", _dateutil(z), exp_o))
+            # a DST-aware tzinfo without a key (hand-written / dateutil-like): kept as the offset in force
+            from .. import foreign
+            srcs.append(("keyless", foreign.keyless(z), exp_o))
+        # fixed offsets in the other spellings: a stdlib timezone carrying a name that other offsets carry too, and pytz's
+        off = z if isinstance(z, int) else exp_o
+        from .. import foreign
+        srcs.append(("timezone-named", foreign.named_fixed(off), off))
+        if off % 60 == 0 and abs(off) < 86400:
+            try:
+                import pytz
+                srcs.append(("pytz-fixed", pytz.FixedOffset(off // 60), off))
+            except ImportError:
+                pass
         for kname, ktz, target in srcs:
             try:
                 nk = nu.astimezone(ktz)
